@@ -86,7 +86,9 @@ def run(c, replay):
                 corr_bad = dict(kind="correspondence", driver="flag handshake replay", divergence=div, program=text, config=desc, stderr=se[-300:])
     # ---- (2) free-running and LP-level runs: order-robust lifetime oracle + delivered set
     progs, runs = C.campaign(c, ctx, r, 5 if c.tier == "quick" else 60, S.mask("MSG_ALLOC", "MSG_FREE"), c.tier, variants=("pred",), extra_cfgs=[(3, 1, 0)])
-    runs = runs + C.lp_campaign(c, ctx, r, 8 if c.tier == "quick" else 120, S.mask("MSG_ALLOC", "MSG_FREE"))
+    lpruns = C.lp_campaign(c, ctx, r, 8 if c.tier == "quick" else 120, S.mask("MSG_ALLOC", "MSG_FREE"))
+    wcov = C.worker_report(c, lpruns)     # ties the worker-model theorems (C06_worker_exactly_once, ..._finds_its_message) to process.c
+    runs = runs + lpruns
     # ---- (3) several ranks: remote events, remote anti-messages (also early ones), exactly-once end to end
     progs2, runs2 = C.campaign(c, ctx, r, 4 if c.tier == "quick" else 40, 0, c.tier, variants=("pred",), ranks_list=(2, 3), jobs=3, nets=(None, "300,15000,20,%d" % (c.seed + 11), "100,8000,10,%d" % (c.seed + 12)))
     nfree = 0
@@ -108,7 +110,7 @@ def run(c, replay):
         c.violation("flag-handshake-correspondence", corr_bad, found_input=False)
     C.finish(c, ctx)
     c.cov.update(evaluations=nsched + len(runs) + len(runs2), distinct_nontrivial=ok, flag_steps_replayed=steps, message_instances=insts,
-                 scheduled_runs_returned=ok, other_runs_checked=nfree,
+                 scheduled_runs_returned=ok, other_runs_checked=nfree, **wcov,
                  rule="cooperatively scheduled runs (uniform / long-stride schedules): every fetch-add result on every local message replayed through the extracted "
                       "handshake model, releases checked against it; free-running, LP-level (rollback storms) and 2..3-rank runs: release-twice oracle and final digests "
                       "against the reference executor; non-trivial = scheduled run that returned",
